@@ -85,4 +85,12 @@ pub mod verif_sched {
     pub trait VCountM { fn v_strong_count_m(&self) -> usize; }
     impl<T> VCountM for std::sync::Arc<T> { fn v_strong_count_m(&self) -> usize { yield_point("strong_count"); std::sync::Arc::strong_count(self) } }
     impl<T> VCountM for std::sync::Weak<T> { fn v_strong_count_m(&self) -> usize { yield_point("strong_count"); std::sync::Weak::strong_count(self) } }
+    pub trait VRwLock<T> {
+        fn v_read_lock(&self) -> std::sync::LockResult<std::sync::RwLockReadGuard<'_, T>>;
+        fn v_write_lock(&self) -> std::sync::LockResult<std::sync::RwLockWriteGuard<'_, T>>;
+    }
+    impl<T> VRwLock<T> for std::sync::RwLock<T> {
+        fn v_read_lock(&self) -> std::sync::LockResult<std::sync::RwLockReadGuard<'_, T>> { yield_point("rwlock_read"); self.read() }
+        fn v_write_lock(&self) -> std::sync::LockResult<std::sync::RwLockWriteGuard<'_, T>> { yield_point("rwlock_write"); self.write() }
+    }
 }
